@@ -2,7 +2,8 @@ prop("C19", pkg="c19",
      rule="rapid draws a message schema (as for C12 without the method-carrying types: untagged (numbered by the running count of exported fields) or fully tagged messages, a quarter of them with 1-2 unexported Go fields declared before / between / after the exported ones; maps restricted to map<string,V>, field numbers incl. 255/256/257/300/317-319/2047/2048/65535/65536/70000/2^29-1) and, "
           "per schema, 1-3 (thorough: 4-10) (rewriter, input) pairs, 60 % of which are extended to a STATEFUL HISTORY (see below). Rewriter: ParseRewriteTemplate(TypeOf(type), JSON) over a random subset of fields (non-zero, zero and null scalars; "
           "nested partial templates for singular messages to depth 3; arrays of non-zero elements / complete objects for repeated fields; objects with non-empty keys "
-          "and non-zero values for maps), the same with RewriterRules carrying BitOr[T] on singular integer fields (nested rules for sub-messages), or a hand-assembled "
+          "and non-zero values for maps), the same with RewriterRules carrying BitOr[T] on singular integer fields (nested rules for sub-messages; T is the field's own Go type half of the time, else any integer type at least as wide "
+          "as the field - e.g. BitOr[uint32] on an int32 / sint32 field, whose existing value in the input may be absent, zero, positive or negative; narrower mask types truncate the field by design and are not generated), or a hand-assembled "
           "MessageRewriter of FieldNumber(n).Bool/Int/.../Bytes/Value(v), MultiRewriter(...) and BitOrRewriter(...). Input: the reference's encoding of a random value, "
           "then protowire variants (unknown fields of all four wire types interleaved at every level, permutation, scalar fields present repeatedly, embedded messages "
           "split, non-minimal varints); templated fields are absent in about half of the cases. Oracle: original := reference decode of the input; expected := original "
